@@ -455,36 +455,50 @@ theorem agree_atom (q : Q) {g : Src} {q' : Q} {text tok lead : String} {ls : Lis
       | true =>
         -- two keywords, neither a prefix of the other
         refine ⟨fun tk ls' h => by simp [answerL, ansAtom, heq, hinc] at h, fun _ => ?_⟩
+        -- in both cases the atom is a keyword, and its text is that keyword
+        have hkwtext : ∀ k', q' = .kw k' → text.toList = k'.toList := by
+          intro k' hq'
+          subst hq'
+          have hts : skipGap (text.toList ++ r) = text.toList ++ r := hsg'
+          simp only [answerC, Option.map_eq_some_iff, Prod.mk.injEq] at hans
+          obtain ⟨r0, hkw, _, hr0⟩ := hans
+          subst hr0
+          unfold Lex.kw at hkw
+          rw [hts] at hkw
+          have hsp : stripPrefix k'.toList (text.toList ++ r0) = some r0 := by
+            cases hs : stripPrefix k'.toList (text.toList ++ r0) with
+            | none => simp [hs] at hkw
+            | some x =>
+              cases x with
+              | nil => simp [hs] at hkw; simp [← hkw]
+              | cons c t =>
+                simp only [hs] at hkw
+                split at hkw
+                · cases hkw
+                · simpa using hkw
+          exact List.append_cancel_right (stripPrefix_some hsp)
         cases q with
         | kw k =>
           cases q' with
           | kw k' =>
             simp only [kwIncomparable, Bool.and_eq_true, Bool.not_eq_true'] at hinc
-            -- the atom's text is the keyword itself
+            have htxt := hkwtext k' rfl
             have hts : skipGap (text.toList ++ r) = text.toList ++ r := hsg'
-            simp only [answerC, Option.map_eq_some_iff, Prod.mk.injEq] at hans
-            obtain ⟨r0, hkw, _, hr0⟩ := hans
-            subst hr0
-            unfold Lex.kw at hkw
-            rw [hts] at hkw
-            have hsp : stripPrefix k'.toList (text.toList ++ r0) = some r0 := by
-              cases hs : stripPrefix k'.toList (text.toList ++ r0) with
-              | none => simp [hs] at hkw
-              | some x =>
-                cases x with
-                | nil => simp [hs] at hkw; simp [← hkw]
-                | cons c t =>
-                  simp only [hs] at hkw
-                  split at hkw
-                  · cases hkw
-                  · simpa using hkw
-            have htxt : text.toList = k'.toList := by
-              have := stripPrefix_some hsp
-              exact List.append_cancel_right this
-            rw [hred (.kw k) (by simp), htxt]
+            rw [hred (.kw k) (by simp)]
             simp only [answerC, Option.map_eq_none_iff]
             unfold Lex.kw
-            rw [← htxt, hts, htxt, stripPrefix_incomparable k.toList k'.toList r0 hinc.1 hinc.2]
+            rw [hts, htxt, stripPrefix_incomparable k.toList k'.toList r hinc.1 hinc.2]
+          | _ => simp [kwIncomparable] at hinc
+        | lit x =>
+          cases q' with
+          | kw k' =>
+            simp only [kwIncomparable, Bool.and_eq_true, Bool.not_eq_true'] at hinc
+            have htxt := hkwtext k' rfl
+            have hts : skipGap (text.toList ++ r) = text.toList ++ r := hsg'
+            rw [hred (.lit x) (by simp)]
+            simp only [answerC, Option.map_eq_none_iff]
+            unfold Lex.lit
+            rw [hts, htxt, stripPrefix_incomparable x.toList k'.toList r hinc.1 hinc.2]
           | _ => simp [kwIncomparable] at hinc
         | _ => simp [kwIncomparable] at hinc
       | false =>
